@@ -180,11 +180,10 @@ pub fn run(opts: &Opts) -> i32 {
     ];
     // several versions per sync on a populated base: pending lists like [p=a, <1 MB>, p=b] whose
     // order matters across the batch boundary, racing with another replica's version
-    spaces.push(("R2-big-populated", start_states(2, if q { 4 } else { 5 }, vec![("p".into(), Some("a".into()), 1), ("p".into(), Some("b".into()), 2), ("q".into(), Some("a".into()), 1)], 1, true), Urg::None));
+    spaces.push(("R2-big-populated", start_states(2, if q { 4 } else { 5 }, if q { vec![("p".into(), Some("a".into()), 1), ("p".into(), Some("b".into()), 2)] } else { vec![("p".into(), Some("a".into()), 1), ("p".into(), Some("b".into()), 2), ("q".into(), Some("a".into()), 1)] }, 1, true), Urg::None));
     if !q {
         spaces.push(("R3-big", start_states(3, 5, vec![("p".into(), Some("a".into()), 1), ("p".into(), Some("b".into()), 2)], 1, false), Urg::None));
         spaces.push(("R3-big-snapshots", start_states_active(3, 2, 5, vec![("p".into(), Some("a".into()), 1)], 1, false), Urg::High));
-    } else {
         spaces.push(("R2-big", start_states(2, 5, vec![("p".into(), Some("a".into()), 1), ("p".into(), Some("b".into()), 2)], 1, false), Urg::None));
     }
     let deadline = std::time::Instant::now() + std::time::Duration::from_secs_f64(opts.budget_s);
